@@ -296,7 +296,7 @@ func callback(key string) (any, error) {
 		return func(in system.Collection, s system.String) (system.Collection, error) {
 			_, oc := cbEnter("probeS")
 			if oc != nil {
-				oc.probes = append(oc.probes, fmt.Sprintf("probeS(in=%d,%q)", len(in), string(s)))
+				oc.probes = append(oc.probes, fmt.Sprintf("probeS(in=%s,%q)", valueDigest(in), string(s)))
 			}
 			return in, nil
 		}, nil
@@ -304,12 +304,27 @@ func callback(key string) (any, error) {
 		return func(in system.Collection, i system.Integer) (system.Collection, error) {
 			_, oc := cbEnter("probeI")
 			if oc != nil {
-				oc.probes = append(oc.probes, fmt.Sprintf("probeI(in=%d,%d)", len(in), int32(i)))
+				oc.probes = append(oc.probes, fmt.Sprintf("probeI(in=%s,%d)", valueDigest(in), int32(i)))
 			}
 			return system.Collection{i}, nil
 		}, nil
 	}
 	return nil, fmt.Errorf("unknown callback %q", key)
+}
+
+// valueDigest renders a collection by value (no identities: the isolated reference pass works on
+// its own materialisation of the inputs).
+func valueDigest(c system.Collection) string {
+	var b strings.Builder
+	for _, it := range c {
+		if m, ok := it.(proto.Message); ok {
+			b.WriteString(msgDigest(m))
+		} else {
+			fmt.Fprintf(&b, "%T(%v)", it, it)
+		}
+		b.WriteByte(';')
+	}
+	return fmt.Sprintf("%d:%s", len(c), digest(b.String()))
 }
 
 func buildCompileOpts(specs []COpt) ([]fhirpath.CompileOption, error) {
